@@ -159,6 +159,27 @@ def gen_ls_case(r, maxsteps, converge=False):
     return ops
 
 
+def gen_linesearch_case(r, nls):
+    """direct line searches from arbitrary points along arbitrary directions: descent (-g, scaled), ascent (+g),
+    zero, random; many start at the origin or have zero coordinates so that a spurious move is visible"""
+    while True:
+        ops, n, okind, box = gen_objective(r, boxed=False)
+        if okind[0] == "quad":
+            break
+    A = [struct.unpack(">d", bytes.fromhex(t[1:]))[0] for t in ops[0].split()[3:3 + n * n]]
+    b = [struct.unpack(">d", bytes.fromhex(t[1:]))[0] for t in ops[0].split()[3 + n * n:]]
+    for _ in range(nls):
+        x = [r.choice([0, 0, 1, -1, 0.5, r.range(-16, 16) / 4]) for _ in range(n)]
+        g = [sum(A[i * n + j] * x[j] for j in range(n)) - b[i] for i in range(n)]
+        k = r.below(8)
+        if k < 3: d = [-v * r.choice([1, 1, 0.25, 2.0 ** 20, 2.0 ** -20]) for v in g]
+        elif k < 5: d = [v * r.choice([1, 2.0 ** 10, 2.0 ** -10]) for v in g]       # ascent: every trial fails
+        elif k < 6: d = [0.0] * n
+        else: d = [r.range(-8, 8) / 2 for _ in range(n)]
+        ops.append("ls %s %s %s %s" % (fb(r.choice([2, 2, 2, 1, 0])), fb(r.choice([1.0, 1.0, 0.5, 8.0, 2.0 ** -10])), nums(x), nums(d)))
+    return ops
+
+
 def case_info(ops):
     info = {"opt": "?", "obj": "?", "n": 0, "box": False, "saves": [], "steps": 0}
     for o in ops:
@@ -167,7 +188,8 @@ def case_info(ops):
         elif t[0] == "box": info["box"] = True
         elif t[0] == "opt": info["opt"] = t[1]
         elif t[0] == "save": info["saves"].append(t[2])
-        elif t[0] == "step": info["steps"] += 1
+        elif t[0] in ("step", "ls"): info["steps"] += 1
+        if t[0] == "ls" and info["opt"] == "?": info["opt"] = "linesearch"
     return info
 
 
@@ -252,6 +274,13 @@ def run_case_ls(ctx, hcmd, dcmd, ops, timeout=120, stats=None):
             else:
                 dops.append("")
             expect.append("plain")
+        elif t[0] == "ls" and m:
+            typ = int(struct.unpack(">d", bytes.fromhex(t[1][1:]))[0])
+            if typ == 2:
+                n = int(m.group(1).split(",")[0])
+                dops.append("xls %d %s %s" % (n, ",".join(t[2:]), m.group(1).split(",", 1)[1])); expect.append("verdict")
+            else:
+                dops.append(""); expect.append("skip")
         elif t[0] in ("init", "step") and kind in LS_KINDS and m:
             dops.append(("xinit " if t[0] == "init" else "xstep ") + m.group(1)); expect.append("verdict")
         else:
@@ -434,6 +463,7 @@ def run(ctx):
     lcases += [gen_ls_case(r, maxls) for _ in range(nls)]
     # generous budget: CG with the backtracking line search needs > 100 steps on the worse-conditioned 5-d instances
     lcases += [gen_ls_case(r, 400 if ctx.quick else 1000, converge=True) for _ in range(nconv)]
+    lcases += [gen_linesearch_case(r, 12) for _ in range(40 if ctx.quick else 400)]
     record(ctx, lcases)
     for c in lcases:
         for o in c:
